@@ -32,7 +32,7 @@ sys.path.insert(0, os.path.dirname(os.path.dirname(os.path.abspath(__file__))))
 from vlib import core, fastdump, tlc  # noqa: E402
 
 LN2 = math.log(2.0)
-TOP = 1.0 - 2.0 ** -53  # the largest value numpy.random.rand can return
+TOP = 1.0 - 2.0 ** -20  # an accept uniform just below 1: accepted iff alpha = 1 (the ratio is >= 1), far from every alpha < 1 of the lattice
 
 KCFG = """INIT Init
 NEXT Next
@@ -69,6 +69,134 @@ class Exhausted(BaseException):
     """the code asked for more innovations than the specification's behaviour contains"""
 
 
+class BindingLost(BaseException):
+    """the code consumed randomness in a way the scripted source cannot serve: NOT a verdict on the property"""
+
+
+LOST = []          # descriptions of lost bindings (reported as INCONCLUSIVE, exit 2, only if there is no violation)
+TOL = 1e-9         # a reformulation of the same kernel at rounding level must pass; decisions are scripted away from alpha
+
+
+def lost(what):
+    if len(LOST) < 50:
+        LOST.append(what)
+    return Res("lost", "binding lost: " + what, False)
+
+
+class Res:
+    """outcome of one replay: kind None = reproduced; "value" = differs from the specification; "over" = the code asked
+    for more innovations than the behaviour contains; "lost" = binding lost.  under = scripted innovations left over."""
+
+    def __init__(self, kind, msg, under):
+        self.kind, self.msg, self.under = kind, msg, under
+
+    def __bool__(self):
+        return self.kind is not None
+
+
+_NP_RANDOM_OTHERS = ["beta", "binomial", "bytes", "chisquare", "choice", "dirichlet", "f", "geometric", "gumbel", "hypergeometric",
+                     "laplace", "logistic", "lognormal", "logseries", "multinomial", "multivariate_normal", "negative_binomial",
+                     "noncentral_chisquare", "noncentral_f", "pareto", "permutation", "poisson", "power", "randint", "random_integers",
+                     "rayleigh", "shuffle", "standard_cauchy", "standard_t", "triangular", "vonmises", "wald", "weibull", "zipf",
+                     "default_rng", "RandomState", "Generator", "seed", "set_state"]
+
+
+class Scripted:
+    """numpy.random for the duration of one call into tempest.mcmc: every equivalent API is served from the SAME scripted
+    quantities - standard normals (randn / standard_normal / normal), uniforms (rand / random / random_sample / ranf / sample /
+    uniform, and as -log U through standard_exponential / exponential), the tpCN mixing variable (gamma(shape, scale) returns G,
+    standard_gamma(shape) returns G / scale where scale is the specification's 2/(nu+delta) of the walker being proposed).
+    Anything else on numpy.random raises BindingLost."""
+
+    def __init__(self, np, normals=(), uniforms=(), gammas=(), normal_fn=None, uniform_fn=None):
+        self.np = np
+        self.zq, self.uq, self.gq = list(normals), list(uniforms), list(gammas)
+        self.nz = self.nu = self.ng = 0
+        self.gparams = []
+        self.normal_fn, self.uniform_fn = normal_fn, uniform_fn
+        self._saved = {}
+
+    # ---- providers
+    @staticmethod
+    def _shape(size):
+        if size is None:
+            return ()
+        return tuple(size) if isinstance(size, (tuple, list)) else (int(size),)
+
+    def _z(self, shape):
+        np = self.np
+        k = int(np.prod(shape)) if shape else 1
+        if self.normal_fn is not None:
+            return np.asarray(self.normal_fn(k), dtype=float).reshape(shape)
+        if self.nz >= len(self.zq):
+            raise Exhausted()
+        v = self.zq[self.nz]
+        if len(v) != k:
+            raise BindingLost(f"{k} standard normals requested at once, the specification's innovation has {len(v)} coordinates")
+        self.nz += 1
+        return np.array(v, dtype=float).reshape(shape)
+
+    def _u(self, shape):
+        np = self.np
+        k = int(np.prod(shape)) if shape else 1
+        if self.uniform_fn is not None:
+            return np.asarray(self.uniform_fn(k), dtype=float).reshape(shape)
+        if self.nu >= len(self.uq):
+            raise BindingLost("more uniform / exponential draws than sweeps scripted")
+        v = self.uq[self.nu]
+        if len(v) != k:
+            raise BindingLost(f"{k} uniforms requested at once, {len(v)} walkers scripted")
+        self.nu += 1
+        return np.array(v, dtype=float).reshape(shape)
+
+    def _g(self, shape, scale, size):
+        if size is not None:
+            raise BindingLost("vectorised gamma draw")
+        if self.ng >= len(self.gq):
+            raise BindingLost("more gamma draws than proposals scripted")
+        g, sc = self.gq[self.ng]
+        self.ng += 1
+        self.gparams.append((float(shape), None if scale is None else float(scale)))
+        return g if scale is not None else g / sc
+
+    def __enter__(self):
+        np, R = self.np, self.np.random
+        with np.errstate(divide="ignore"):
+            pass
+        stubs = {
+            "randn": lambda *sh: self._z(tuple(sh)),
+            "standard_normal": lambda size=None: self._z(self._shape(size)),
+            "normal": lambda loc=0.0, scale=1.0, size=None: loc + scale * self._z(self._shape(size)),
+            "rand": lambda *sh: self._u(tuple(sh)),
+            "random": lambda size=None: self._u(self._shape(size)),
+            "random_sample": lambda size=None: self._u(self._shape(size)),
+            "ranf": lambda size=None: self._u(self._shape(size)),
+            "sample": lambda size=None: self._u(self._shape(size)),
+            "uniform": lambda low=0.0, high=1.0, size=None: low + (high - low) * self._u(self._shape(size)),
+            "standard_exponential": lambda size=None: self._neglog(self._u(self._shape(size))),
+            "exponential": lambda scale=1.0, size=None: scale * self._neglog(self._u(self._shape(size))),
+            "gamma": lambda shape, scale=1.0, size=None: self._g(shape, scale, size),
+            "standard_gamma": lambda shape, size=None: self._g(shape, None, size),
+        }
+        for name in _NP_RANDOM_OTHERS:
+            if hasattr(R, name):
+                stubs[name] = (lambda nm: (lambda *a, **k: (_ for _ in ()).throw(BindingLost(f"numpy.random.{nm} called from the kernel"))))(name)
+        for name, fn in stubs.items():
+            self._saved[name] = getattr(R, name)
+            setattr(R, name, fn)
+        return self
+
+    def _neglog(self, u):
+        np = self.np
+        with np.errstate(divide="ignore"):
+            return -np.log(u)
+
+    def __exit__(self, *exc):
+        for name, fn in self._saved.items():
+            setattr(self.np.random, name, fn)
+        return False
+
+
 # ------------------------------------------------------------------------------------------------ model constants
 def alphabet(sizes):
     """{size: weight} -> symmetric signed alphabet [(z, w)] sorted by z"""
@@ -100,7 +228,7 @@ def kernel_cases(tier, seed):
     flat16 = (0,) * 16
     rt = lambda n: tuple(rng.choice(lv) for _ in range(n))  # noqa: E731
     if tier == "quick":
-        st4 = fixed4 + rng.sample([t for t in all4 if t not in fixed4], 3)
+        st4 = fixed4 + rng.sample([t for t in all4 if t not in fixed4], 1)
         t8 = [flat8] + [rt(8) for _ in range(40)]
         t16 = [flat16] + [rt(16) for _ in range(8)]
         S2 = alphabet({0: 1, 1: 2, 6: 1})
@@ -109,7 +237,7 @@ def kernel_cases(tier, seed):
         return MULTI(T8, quick=True) + [
             dict(M=4, d=1, alpha=A4, tabs=None, steptabs=st4, bs=[1, 2], maxdraws=2),
             dict(M=8, d=1, alpha=A8, tabs=t8, steptabs=[t8[1]], bs=[1, 2], maxdraws=2),
-            dict(M=4, d=2, alpha=S2, tabs=t16, steptabs=[t16[1]], bs=[1], maxdraws=1),
+            dict(M=4, d=2, alpha=S2, tabs=t16, steptabs=[], bs=[1], maxdraws=1),
             dict(M=4, d=2, alpha=S3, tabs=t16[:3], steptabs=[t16[2]], bs=[2], maxdraws=2),
         ]
     t8 = [flat8] + [rt(8) for _ in range(1500)]
@@ -165,6 +293,7 @@ class SweepReplayer:
         self.MS = modes_mod.ModeStatistics
         self._ms = {}
         self.calls = 0
+        self.hooked = 0
         self.masks = set()
 
     def mode_stats(self, M, d, gains=(1,)):
@@ -222,8 +351,9 @@ class SweepReplayer:
             bl = np.full((len(xb), 2), -1.0)
             for i, row in enumerate(xb):
                 cells = row * den
-                if np.all(cells == np.round(cells)) and np.all(cells >= 1) and np.all(cells <= 2 * M - 1) and np.all(cells % 2 == 1):
-                    ix = idx_of([int(c) for c in cells])
+                rc_ = np.round(cells)
+                if np.all(np.abs(cells - rc_) <= 1e-7) and np.all(rc_ >= 1) and np.all(rc_ <= 2 * M - 1) and np.all(rc_ % 2 == 1):
+                    ix = idx_of([int(c) for c in rc_])
                     out[i] = e[ix] * LN2
                     bl[i] = blob_of(ix)
                 else:
@@ -251,78 +381,93 @@ class SweepReplayer:
                     a = min(1.0, pis[idx_of(sp["fol"])] / pis[idx_of(sp["u"])])
                     rs.append(a / 2 if sp["rc"] == "low" else (1.0 + a) / 2)
             rq.append(np.array(rs))
-        pos = {"z": 0, "r": 0}
-
-        def randn(*shape):
-            if shape != (d,):
-                raise RuntimeError(f"randn called with shape {shape}")
-            if pos["z"] >= len(zq):
-                raise Exhausted()
-            pos["z"] += 1
-            return zq[pos["z"] - 1].copy()
-
-        def rand(*shape):
-            if shape != (n,) or pos["r"] >= ns:
-                raise RuntimeError(f"rand called with shape {shape} (call {pos['r'] + 1})")
-            pos["r"] += 1
-            return rq[pos["r"] - 1].copy()
-
         ms = self.mode_stats(M, d, gains)
-        K = len(gains)
-        o_randn, o_rand = np.random.randn, np.random.rand
+        snaps = []
+
+        def sink(event, refs):
+            if event == "sweep":
+                r_ = refs["runner"]
+                up = refs.get("u_prime")
+                snaps.append((np.array(r_.u, dtype=float), np.array(r_.assignments), None if up is None else np.array(up, dtype=float)))
+
+        from tempest import _verif
         o_init = self.mcmc.RWMRunner._initialize_sigmas
         self.calls += 1
+        sr = Scripted(np, normals=zq, uniforms=rq)
         runner = None
         try:
+            _verif.set_sink(sink)
             if entry:
                 self.mcmc.RWMRunner._initialize_sigmas = lambda r_: np.ones(r_.n_clusters)
-                np.random.randn, np.random.rand = randn, rand
-                out = self.mcmc.parallel_mcmc(u0, u0.copy(), l0, b0, labels.copy(), b / 2.0, ms, ll, lambda v: v,
-                                              progress_bar=None, n_steps=float(ns) / d, n_max=float(ns) / d, sample="rwm", periodic=per, reflective=ref, verbose=False)
+                with sr:
+                    out = self.mcmc.parallel_mcmc(u0, u0.copy(), l0, b0, labels.copy(), b / 2.0, ms, ll, lambda v: v,
+                                                  progress_bar=None, n_steps=float(ns) / d, n_max=float(ns) / d, sample="rwm", periodic=per, reflective=ref, verbose=False)
             else:
                 runner = self.mcmc.RWMRunner(u0, u0.copy(), l0, b0, labels.copy(), b / 2.0, ms, ll,
                                              lambda v: v, None, float(ns) / d, float(ns) / d, per, ref, False)
                 runner.sigmas[:] = 1.0
                 if ns > 1:
-                    runner._adapt_sigma = lambda c, a: None
-                np.random.randn, np.random.rand = randn, rand
-                out = runner.run()
+                    runner._adapt_sigma = lambda c, a: None   # step-size adaptation is not part of C03: pinned
+                with sr:
+                    out = runner.run()
         except Exhausted:
-            return "the code drew more innovations than the specification's behaviour (redraw where the spec rejects)"
+            return Res("over", "the code drew more innovations than the specification's behaviour (redraw where the spec rejects)", False)
+        except BindingLost as ex:
+            return lost(str(ex))
         finally:
-            np.random.randn, np.random.rand = o_randn, o_rand
+            _verif.set_sink(None)
             self.mcmc.RWMRunner._initialize_sigmas = o_init
-        if pos["z"] != len(zq):
-            return f"the code consumed {pos['z']} innovation vectors, the specification's behaviour has {len(zq)}"
-        if pos["r"] != ns:
-            return f"rand(n_walkers) called {pos['r']} times in {ns} sweeps"
+        under = sr.nz != len(zq)
+
+        def differs(got, want):
+            got = np.asarray(got, dtype=float)
+            return got.shape != want.shape or not np.allclose(got, want, rtol=0.0, atol=TOL)
+
+        bad = None
         if flags["outside"]:
-            return "the likelihood was evaluated at a point that is not a lattice point of the cube"
-        if out[6] != ns or out[7] != n * ns or flags["calls"] != ns:
-            return f"iterations={out[6]} n_calls={out[7]} likelihood calls={flags['calls']} (want {ns}, {n * ns}, {ns})"
-        if runner is not None and not np.array_equal(runner.assignments, labels):
-            return f"cluster labels changed during run(): {labels.tolist()} -> {runner.assignments.tolist()}"
-        # every sweep's proposal batch: the folded proposal made with the mode of the walker's FIXED label
-        # (an out-of-cube proposal is not evaluated: the walker's current point stands in for it)
-        for k in range(ns):
-            want = np.array([[c / den for c in (t["sweeps"][k]["fol"] if t["sweeps"][k]["ok"] else t["sweeps"][k]["u"])] for t in trans])
-            if batches[k].shape != want.shape or not np.array_equal(batches[k], want):
-                return (f"sweep {k + 1}: proposals evaluated {batches[k].tolist()} ; specification (labels {(labels + 1).tolist()}, "
-                        f"cells per unit innovation {list(gains)}) {want.tolist()}")
-        last = [t["sweeps"][-1] for t in trans]
-        ixe = [idx_of(sp["rec"][0]) for sp in last]
-        for sp, ix in zip(last, ixe):
-            if sp["rec"][1] != e[ix] or sp["rec"][2] != ix + 1:
-                raise RuntimeError("spec record incoherent")  # guarded by RecordCoherent
-        eu = np.array([[c / den for c in sp["rec"][0]] for sp in last])
-        el = np.array([e[i] * LN2 for i in ixe])
-        eb = np.array([blob_of(i) for i in ixe])
-        for name, got, want in (("u", out[0], eu), ("x", out[1], eu), ("logl", out[2], el), ("blobs", out[3], eb)):
-            if got.shape != want.shape or not np.array_equal(got, want):
-                return f"post-run {name} = {got.tolist()} ; specification's successor {want.tolist()}"
+            bad = "the likelihood was evaluated at a point that is not a lattice point of the cube"
+        if bad is None and runner is not None and not np.array_equal(runner.assignments, labels):
+            bad = f"cluster labels changed during run(): {labels.tolist()} -> {runner.assignments.tolist()}"
+        # per sweep (through the library's own `sweep` hook, when it fires once per sweep): the state after the sweep, the
+        # labels, and the proposal of every walker - the folded proposal made with the mode of the walker's FIXED label;
+        # a walker whose proposal is outside the cube keeps its state
+        if bad is None and len(snaps) == ns:
+            self.hooked += 1
+            for k in range(ns):
+                su, sa, sp_ = snaps[k]
+                want_u = np.array([[c / den for c in t["sweeps"][k]["rec"][0]] for t in trans])
+                want_p = np.array([[c / den for c in (t["sweeps"][k]["fol"] if t["sweeps"][k]["ok"] else t["sweeps"][k]["u"])] for t in trans])
+                if not np.array_equal(sa, labels):
+                    bad = f"cluster labels changed during run() (sweep {k + 1}): {labels.tolist()} -> {sa.tolist()}"
+                elif sp_ is not None and differs(sp_, want_p):
+                    bad = (f"sweep {k + 1}: proposals {sp_.tolist()} ; specification (labels {(labels + 1).tolist()}, cells per unit "
+                           f"innovation {list(gains)}) {want_p.tolist()}")
+                elif differs(su, want_u):
+                    bad = f"sweep {k + 1}: state after the sweep {su.tolist()} ; specification {want_u.tolist()}"
+                if bad:
+                    break
+        if bad is None:
+            last = [t["sweeps"][-1] for t in trans]
+            ixe = [idx_of(sp["rec"][0]) for sp in last]
+            for sp, ix in zip(last, ixe):
+                if sp["rec"][1] != e[ix] or sp["rec"][2] != ix + 1:
+                    raise RuntimeError("spec record incoherent")  # guarded by RecordCoherent
+            eu = np.array([[c / den for c in sp["rec"][0]] for sp in last])
+            el = np.array([e[i] * LN2 for i in ixe])
+            eb = np.array([blob_of(i) for i in ixe])
+            for name, got, want in (("u", out[0], eu), ("x", out[1], eu), ("logl", out[2], el), ("blobs", out[3], eb)):
+                if differs(got, want):
+                    bad = f"post-run {name} = {np.asarray(got).tolist()} ; specification's successor {want.tolist()}"
+                    break
+        if bad:
+            return Res("value", bad, under)
+        if under:
+            return Res("under", f"the code consumed {sr.nz} innovation vectors, the specification's behaviour has {len(zq)}", True)
+        if sr.nu != ns:
+            return lost(f"{sr.nu} uniform draws consumed in {ns} scripted sweeps")
         if ns == 1:
-            self.masks.add(tuple(bool(sp["acc"]) for sp in last) if n == 3 else None)
-        return None
+            self.masks.add(tuple(bool(t["sweeps"][-1]["acc"]) for t in trans) if n == 3 else None)
+        return Res(None, "", False)
 
 
 _VAR = re.compile(r"^/\\ (\w+) = (.*)$")
@@ -350,14 +495,27 @@ def _parse_block(lines):
     return st
 
 
-def iter_states(path, wanted):
-    """one pass over a TLC dump; only states whose pc is in `wanted` are parsed"""
+def iter_states(path, wanted, last_sweep_of=None):
+    """one pass over a TLC dump; only states whose pc is in `wanted` are parsed.  last_sweep_of: {ci: nsweeps} - `done`
+    states of an earlier sweep (they are prefixes of longer behaviours) are skipped unparsed."""
     marks = tuple('/\\ pc = "%s"' % w for w in wanted)
+
+    def keep(block):
+        if last_sweep_of is None:
+            return True
+        vals = {}
+        for ln in block:
+            if ln.startswith("/\\ ci = ") or ln.startswith("/\\ sw = "):
+                vals[ln[3:5]] = int(ln.split("=")[1])
+            elif ln == '/\\ pc = "weights"':
+                return True
+        return vals.get("sw") == last_sweep_of.get(vals.get("ci"))
+
     block, hit = [], False
     with open(path) as f:
         for ln in f:
             if ln.startswith("State ") and ln.rstrip().endswith(":"):
-                if block and hit:
+                if block and hit and keep(block):
                     yield _parse_block(block)
                 block, hit = [], False
                 continue
@@ -366,7 +524,7 @@ def iter_states(path, wanted):
                 block.append(ln)
                 if not hit and ln.startswith(marks):
                     hit = True
-    if block and hit:
+    if block and hit and keep(block):
         yield _parse_block(block)
 
 
@@ -378,7 +536,7 @@ def load_kernel_dump(res, cases):
     """-> (mats, trans): mats[(ci,kinds,e,b,lab)] = (pis, [(den, nums)]); trans = complete behaviours (all sweeps of the
     run() call) as dict(ci, kinds, e, b, pis, lab, sweeps=[...]) plus the fields of the LAST sweep at top level"""
     mats, trans = {}, []
-    for st in iter_states(res.dump_path, ("weights", "done")):
+    for st in iter_states(res.dump_path, ("weights", "done"), {i + 1: c.get("nsweeps", 1) for i, c in enumerate(cases)}):
         if st["pc"] == "weights":
             mats[(st["ci"], tuple(st["kinds"]), tuple(st["e"]), st["b"], st["lab"])] = (st["pis"], [(r[0], r[1]) for r in st["mat"]])
         elif st["sw"] == cases[st["ci"] - 1].get("nsweeps", 1):
@@ -482,15 +640,10 @@ def simulate_lattice(np, mcmc, rep, case, mat, kinds, seed, n_per_cell, sweeps):
                             lambda x: (np.zeros(len(x)), None), lambda v: v, None, sweeps, sweeps, per, ref, False)
     runner.sigmas[:] = 1.0
     runner._adapt_sigma = lambda c, a: None  # step size pinned: walkers are independent lattice chains
-    o_randn, o_rand = np.random.randn, np.random.rand
     pre = zs[rs.choice(len(zs), size=40 * n * sweeps, p=pw / pw.sum())]
     it = iter(pre)
-    np.random.randn = lambda *sh: np.array([next(it)])
-    np.random.rand = lambda *sh: rs.random_sample(sh)
-    try:
+    with Scripted(np, normal_fn=lambda k: [next(it) for _ in range(k)], uniform_fn=lambda k: rs.random_sample(k)):
         out = runner.run()
-    finally:
-        np.random.randn, np.random.rand = o_randn, o_rand
     cells = np.round(out[0][:, 0] * 2 * M).astype(int)
     counts = [int(np.sum(cells == 2 * k + 1)) for k in range(M)]
     P = [[Fraction(x, den) for x in nums] for den, nums in mat]
@@ -597,43 +750,36 @@ def replay_tpcn(ck, np, mcmc, modes_mod, modes, M, res):
         runner, ms, hL = tpcn_runner(np, mcmc, modes_mod, mode, M, kinds, U)
         if np.array_equal(ms.chol_covariances[0], hL):
             cnt["chol_exact"] += 1
-        o_gamma, o_randn = np.random.gamma, np.random.randn
         for k, s in enumerate(sts):
-            rec = {"g": [], "z": 0}
             zq = [np.array(z, dtype=float) for z in s["zs"]]
-
-            def gamma(shape=None, scale=None, size=None, _r=rec, _s=s):
-                _r["g"].append((float(shape), float(scale)))
-                return 4.0 / (_s["sq2"] * _s["sq2"])
-
-            def randn(*sh, _r=rec, _zq=zq):
-                if _r["z"] >= len(_zq):
-                    raise Exhausted()
-                _r["z"] += 1
-                return _zq[_r["z"] - 1].copy()
-
-            np.random.gamma, np.random.randn = gamma, randn
+            sc_spec = s["scale"][0] / s["scale"][1]
+            sr = Scripted(np, normals=zq, gammas=[(4.0 / (s["sq2"] * s["sq2"]), sc_spec)])
             bad = None
+            over = False
             try:
-                got = runner._propose(k)
+                with sr:
+                    got = runner._propose(k)
             except Exhausted:
-                got, bad = None, "the code drew more innovations than the specification's behaviour"
-            finally:
-                np.random.gamma, np.random.randn = o_gamma, o_randn
+                got, bad, over = None, "the code drew more innovations than the specification's behaviour", True
+            except BindingLost as ex:
+                lost(str(ex))
+                continue
             cnt["propose"] += 1
             want = [Fraction(f, PD * 2 * M) for f in s["fol"]]
-            bad_rule = bad is not None or rec["z"] != len(zq)   # the number of innovations drawn identifies the hard-wall rule
+            bad_rule = over or sr.nz != len(zq)   # the number of innovations drawn identifies the hard-wall rule
             if bad is None and not bad_rule:
-                if len(rec["g"]) != 1:
-                    bad = f"numpy.random.gamma called {len(rec['g'])} times"
-                elif rec["g"][0][0] != s["shape2"] / 2.0:
-                    bad = f"gamma shape {rec['g'][0][0]!r}, specification (d+nu)/2 = {s['shape2'] / 2.0!r}"
-                elif abs(rec["g"][0][1] - s["scale"][0] / s["scale"][1]) > 1e-12 * s["scale"][0] / s["scale"][1]:
-                    bad = f"gamma scale {rec['g'][0][1]!r}, specification 2/(nu+delta) = {s['scale'][0]}/{s['scale'][1]}"
-                elif got.shape != (d,) or any(abs(float(g) - float(w)) > 1e-12 for g, w in zip(got, want)):
-                    bad = f"proposal {got.tolist()!r}, specification {[str(w) for w in want]}"
+                gp = sr.gparams
+                if got is None or np.shape(got) != (d,) or any(abs(float(g) - float(w)) > TOL * max(1.0, abs(float(w))) for g, w in zip(got, want)):
+                    bad = f"proposal {np.asarray(got).tolist()!r}, specification {[str(w) for w in want]}" + ("" if gp else " (no gamma / standard_gamma draw was made)")
+                elif gp and gp[0][0] != s["shape2"] / 2.0:
+                    bad = f"gamma shape {gp[0][0]!r}, specification (d+nu)/2 = {s['shape2'] / 2.0!r}"
+                elif gp and gp[0][1] is not None and abs(gp[0][1] - sc_spec) > TOL * sc_spec:
+                    bad = f"gamma scale {gp[0][1]!r}, specification 2/(nu+delta) = {s['scale'][0]}/{s['scale'][1]}"
+                elif len(gp) != 1:
+                    lost(f"{len(gp)} gamma draws in one proposal although the proposal agrees with the specification")
+                    continue
             elif bad is None:
-                bad = f"{rec['z']} innovation vectors consumed, specification {len(zq)}"
+                bad = f"{sr.nz} innovation vectors consumed, specification {len(zq)}"
             payload = {"mode": mode, "kinds": list(kinds), "state": s, "M": M}
             if s["pc"] == "outside" or len(s["zs"]) > 1:   # behaviours that discriminate the two hard-wall rules
                 which = "int" if s["pc"] == "outside" else "impl"
@@ -652,7 +798,7 @@ def replay_tpcn(ck, np, mcmc, modes_mod, modes, M, res):
                 ck.violation(key, bad, payload)
             elif len(ck.samples) < 5 and any(kd != "hard" for kd in kinds) and list(s["prop"]) != list(s["fol"]):
                 ck.sample({"tpcn_propose": {"mode": mode, "kinds": list(kinds), "c": s["c"], "sq2": s["sq2"], "zs": s["zs"],
-                                            "gamma_shape_scale": rec["g"][0], "proposal": [float(g) for g in got], "spec": [str(w) for w in want]}})
+                                            "gamma_shape_scale": (sr.gparams or [None])[0], "proposal": [float(g) for g in got], "spec": [str(w) for w in want]}})
     if tally["impl_bad"] == 0 and tally["int_ok"] == 0 and tally["impl_ok"]:
         cnt["hardwall_rule"] = "impl"
     elif tally["int_bad"] == 0 and tally["impl_ok"] == 0 and tally["int_ok"]:
@@ -673,7 +819,7 @@ def replay_tpcn(ck, np, mcmc, modes_mod, modes, M, res):
             want = (r[3] / 2.0) * math.log1p(float(Fraction(r[1] - r[2], r[2])))
             cnt["factor_pairs"] += 1
             # the code forms (d+nu)/2 * log(1 + delta/nu) twice: absolute rounding error of 1 + x is eps/2, amplified by (d+nu)/2
-            if not abs(float(g) - want) <= 1e-12 * max(1.0, abs(want)) + 4 * 2.3e-16 * r[3]:
+            if not abs(float(g) - want) <= TOL * max(1.0, abs(want)) + 4 * 2.3e-16 * r[3]:
                 ck.violation("tpcn:acceptance-factor", f"_compute_acceptance_factor = {float(g)!r}, specification ({r[3]}/2) log({r[1]}/{r[2]}) = {want!r}",
                              {"mode": mode, "c": st["c"], "c2": r[0], "M": M})
     return cnt
@@ -703,25 +849,25 @@ def replay_tpcn_float(ck, np, mcmc, modes_mod, modes, M, res, nus=(2.5, 7.3), li
             d = mode["d"]
             U = np.array([[c * h for c in s["c"]] for s in sts])
             runner, _, _ = tpcn_runner(np, mcmc, modes_mod, mode, M, ("hard",) * d, U, nu=nu)
-            o_gamma, o_randn = np.random.gamma, np.random.randn
             for k, s in enumerate(sts):
-                rec = []
-                np.random.gamma = lambda shape=None, scale=None, size=None, _r=rec, _s=s: (_r.append((float(shape), float(scale))), 4.0 / (_s["sq2"] ** 2))[1]
-                np.random.randn = lambda *sh, _s=s: np.array(_s["zs"][0], dtype=float)
-                try:
-                    got = runner._propose(k)
-                finally:
-                    np.random.gamma, np.random.randn = o_gamma, o_randn
-                n_eval += 1
                 w_shape, w_scale = (d + nu) / 2, 2.0 / (nu + s["qf"][0] / s["qf"][1])
+                sr = Scripted(np, normals=[np.array(s["zs"][0], dtype=float)], gammas=[(4.0 / (s["sq2"] ** 2), w_scale)])
+                try:
+                    with sr:
+                        got = runner._propose(k)
+                except (Exhausted, BindingLost) as ex:
+                    lost(f"real nu: {ex!r}")
+                    continue
+                n_eval += 1
                 want = [float(Fraction(f, PD * 2 * M)) for f in s["fol"]]
+                rec = sr.gparams
                 bad = None
-                if len(rec) != 1:
-                    bad = f"numpy.random.gamma called {len(rec)} times"
-                elif rec[0][0] != w_shape or abs(rec[0][1] - w_scale) > 1e-12 * w_scale:
-                    bad = f"gamma(shape={rec[0][0]!r}, scale={rec[0][1]!r}), closed form ({w_shape!r}, {w_scale!r})"
-                elif any(abs(float(g) - w) > 1e-12 for g, w in zip(got, want)):
+                if any(abs(float(g) - w) > TOL * max(1.0, abs(w)) for g, w in zip(got, want)):
                     bad = f"proposal {got.tolist()}, specification {want}"
+                elif rec and (abs(rec[0][0] - w_shape) > 1e-12 or (rec[0][1] is not None and abs(rec[0][1] - w_scale) > TOL * w_scale)):
+                    bad = f"gamma(shape={rec[0][0]!r}, scale={rec[0][1]!r}), closed form ({w_shape!r}, {w_scale!r})"
+                elif len(rec) != 1:
+                    lost(f"real nu: {len(rec)} gamma draws although the proposal agrees")
                 if bad:
                     ck.violation("tpcn:propose:real-nu", f"nu = {nu}: {bad}", {"mode": dict(mode, nu=nu), "state": s, "M": M})
         for st in factors:
@@ -739,7 +885,7 @@ def replay_tpcn_float(ck, np, mcmc, modes_mod, modes, M, res, nus=(2.5, 7.3), li
                 q2, q1 = r[1] - mode["nu"] * det, r[2] - mode["nu"] * det       # Qf(n'), Qf(n) from the spec's G numerators
                 want = (d + nu) / 2 * math.log1p((q2 - q1) / (nu * det + q1))
                 n_eval += 1
-                if not abs(float(g) - want) <= 1e-12 * max(1.0, abs(want)):
+                if not abs(float(g) - want) <= TOL * max(1.0, abs(want)):
                     ck.violation("tpcn:acceptance-factor:real-nu", f"nu = {nu}: _compute_acceptance_factor = {float(g)!r}, closed form {want!r}",
                                  {"mode": dict(mode, nu=nu), "c": st["c"], "c2": r[0], "M": M})
     return n_eval
@@ -782,56 +928,44 @@ def entry_tpcn(ck, np, mcmc, modes_mod, modes, M, res, limit):
 
             l0, b0 = lik(U)
             inside_sweep["on"] = True
-            gq = [4.0 / (s["sq2"] * s["sq2"]) for s in chunk]
+            gq = [(4.0 / (s["sq2"] * s["sq2"]), s["scale"][0] / s["scale"][1]) for s in chunk]
             zq = [np.array(s["zs"][0], dtype=float) for s in chunk]
-            pos = {"g": 0, "z": 0, "r": 0}
-
-            def gamma(shape=None, scale=None, size=None):
-                pos["g"] += 1
-                if pos["g"] > len(gq):
-                    raise Exhausted()
-                return gq[pos["g"] - 1]
-
-            def randn(*sh):
-                pos["z"] += 1
-                if pos["z"] > len(zq):
-                    raise Exhausted()
-                return zq[pos["z"] - 1].copy()
-
-            def rand(*sh):
-                pos["r"] += 1
-                return np.zeros(sh)
-
-            o = (np.random.gamma, np.random.randn, np.random.rand, mcmc.TPCNRunner._initialize_sigmas)
-            np.random.gamma, np.random.randn, np.random.rand = gamma, randn, rand
+            sr = Scripted(np, normals=zq, uniforms=[np.zeros(n)], gammas=gq)
+            o_init = mcmc.TPCNRunner._initialize_sigmas
             mcmc.TPCNRunner._initialize_sigmas = lambda r_: np.ones(r_.n_clusters) * 0.6
             bad = None
             try:
-                out = mcmc.parallel_mcmc(U, U.copy(), l0, b0, np.zeros(n, dtype=int), 1.0, ms, lik, lambda v: v, progress_bar=None,
-                                         n_steps=1.0 / d, n_max=1.0 / d, sample="tpcn", periodic=per, reflective=ref, verbose=False)
+                with sr:
+                    out = mcmc.parallel_mcmc(U, U.copy(), l0, b0, np.zeros(n, dtype=int), 1.0, ms, lik, lambda v: v, progress_bar=None,
+                                             n_steps=1.0 / d, n_max=1.0 / d, sample="tpcn", periodic=per, reflective=ref, verbose=False)
             except Exhausted:
                 bad = "the code drew more innovations than the specification's behaviour"
+            except BindingLost as ex:
+                lost(str(ex))
+                continue
             finally:
-                np.random.gamma, np.random.randn, np.random.rand, mcmc.TPCNRunner._initialize_sigmas = o
+                mcmc.TPCNRunner._initialize_sigmas = o_init
                 inside_sweep["on"] = False
             cnt["sweeps"] += 1
             cnt["walkers"] += n
             if any(list(s["prop"]) != list(s["fol"]) for s in chunk):
                 cnt["folded"] += 1
             if bad is None:
-                if (pos["g"], pos["z"], pos["r"]) != (n, n, 1) or out[6] != 1:
-                    bad = f"gamma/randn/rand calls {pos}, iterations {out[6]} (want {n}, {n}, 1, 1)"
-                elif variant == "reject":
-                    if not (np.array_equal(out[0], U) and np.array_equal(out[1], U) and np.array_equal(out[2], l0) and np.array_equal(out[3], b0)):
+                close = lambda a_, b_: np.shape(a_) == np.shape(b_) and np.allclose(np.asarray(a_, dtype=float), b_, rtol=0.0, atol=TOL)  # noqa: E731
+                if variant == "reject":
+                    if not (close(out[0], U) and close(out[1], U) and close(out[2], l0) and close(out[3], b0)):
                         bad = f"rejected sweep changed the records: u={out[0].tolist()} (was {U.tolist()})"
                 else:
                     want = np.array([[float(Fraction(f, PD * 2 * M)) for f in s["fol"]] for s in chunk])
-                    if out[0].shape != want.shape or np.max(np.abs(out[0] - want)) > 1e-12:
+                    if not close(out[0], want):
                         bad = f"accepted proposal u={out[0].tolist()}, specification {want.tolist()}"
                     else:
                         wl, wb = lik(out[0])
-                        if not (np.array_equal(out[1], out[0]) and np.array_equal(out[2], wl) and np.array_equal(out[3], wb)):
+                        if not (close(out[1], out[0]) and close(out[2], wl) and close(out[3], wb)):
                             bad = "x / logl / blobs of the accepted record are not those of the accepted point"
+                if bad is None and (sr.ng, sr.nz, sr.nu) != (n, n, 1):
+                    lost(f"tpcn entry: gamma/normal/uniform draws consumed {(sr.ng, sr.nz, sr.nu)}, scripted {(n, n, 1)}, although every value agrees")
+                    continue
             if bad:
                 ck.violation("entry:parallel_mcmc:tpcn", f"one sweep through tempest.mcmc.parallel_mcmc(sample='tpcn', periodic={per}, reflective={ref}) differs from "
                              f"KernelTpcn.tla ({variant} variant): {bad}", {"mode": mode, "kinds": list(kinds), "states": chunk, "variant": variant, "M": M})
@@ -971,10 +1105,13 @@ def _main(ck, pools):
             case["alpha"] = [tuple(a) for a in case["alpha"]]
             ts = pl.get("transitions") or [pl["transition"]]
             rep = SweepReplayer(np, mcmc, modes_mod)
-            m = rep.sweep(case, tuple(ts[0]["kinds"]), tuple(ts[0]["e"]), ts[0]["pis"], ts[0]["b"], ts)
-            print("replayed sweep:", m or "reproduces the specification's successor")
+            m = rep.sweep(case, tuple(ts[0]["kinds"]), tuple(ts[0]["e"]), ts[0]["pis"], ts[0]["b"], ts, entry=rp["key"].startswith("entry:"))
+            print("replayed sweep:", m.msg or "reproduces the specification's successor")
+            if m.kind == "lost":
+                print(f"INCONCLUSIVE property=C03 {m.msg}", flush=True)
+                raise RuntimeError(m.msg)
             if m:
-                ck.violation(rp["key"], m, pl)
+                ck.violation(rp["key"], m.msg, pl)
             ck.finish({"states": 1, "transitions": len(ts), "traces_validated_against_impl": len(ts), "replayed_file": ck.args.replay})
         print(f"replay of key {rp['key']}: re-running the check ({rp['what'][:200]}...)")
     quick = ck.tier == "quick"
@@ -1088,17 +1225,25 @@ def _main(ck, pools):
     single = lambda L: [t for t in L if len(t["sweeps"]) == 1]  # noqa: E731  (one sweep: nothing but the hard-wall rule differs)
     probe_i = rng.sample(single(int_only), min(len(single(int_only)), 400 if quick else 3000))
     probe_c = rng.sample(single(imp_only), min(len(single(imp_only)), 400 if quick else 3000))
-    mis_i = [(t, m) for t in probe_i for m in [one(t)] if m]
-    mis_c = [(t, m) for t in probe_c for m in [one(t)] if m]
-    if not mis_c and len(mis_i) == len(probe_i):
+    # a behaviour with a redraw is REFUSED by code that leaves innovations over (it did not redraw); an out-of-cube =
+    # rejection behaviour is REFUSED by code that asks for another innovation.  Lost bindings decide nothing.
+    res_i = [(t, one(t)) for t in probe_i]
+    res_c = [(t, one(t)) for t in probe_c]
+    res_i = [(t, m) for t, m in res_i if m.kind != "lost"]
+    res_c = [(t, m) for t, m in res_c if m.kind != "lost"]
+    ok_i, ref_i = sum(1 for _, m in res_i if not m), sum(1 for _, m in res_i if m.kind == "over")
+    ok_c, ref_c = sum(1 for _, m in res_c if not m), sum(1 for _, m in res_c if m.under)
+    if res_c and res_i and ok_c == len(res_c) and ref_i == len(res_i):
         follows = "impl"
-    elif not mis_i and len(mis_c) == len(probe_c):
+    elif res_i and ok_i == len(res_i) and ref_c == len(res_c):
         follows = "intended"
+    elif not res_i and not res_c:
+        follows = None   # nothing could be bound: reported as INCONCLUSIVE below
     else:
         follows = None
-        t, m = (mis_c or mis_i)[0]
-        ck.violation("replay:hardwall-rule", f"RWMRunner follows neither hard-wall rule of Kernel.tla: {len(mis_i)}/{len(probe_i)} intended and "
-                     f"{len(mis_c)}/{len(probe_c)} code-shaped behaviours not reproduced; first: {m}", {"transition": t, "case": cases[t['ci'] - 1]})
+        t, m = next(((t, m) for t, m in res_i + res_c if m.kind in ("value", "over", "under")), (None, None))
+        ck.violation("replay:hardwall-rule", f"RWMRunner follows neither hard-wall rule of Kernel.tla: out-of-cube=rejection behaviours {ok_i} reproduced / {ref_i} refused "
+                     f"of {len(res_i)}, redraw behaviours {ok_c} reproduced / {ref_c} refused of {len(res_c)}; first: {m and m.msg}", {"transition": t, "case": t and cases[t['ci'] - 1]})
     dbg(ck, "rule classified")
     # ---- binding B proper: every enumerated behaviour of the followed rule, three walkers per call
     todo = common + (imp_only if follows == "impl" else int_only if follows == "intended" else [])
@@ -1119,22 +1264,29 @@ def _main(ck, pools):
             chunk = L[i:i + 3]
             m = rep.sweep(cases[gk[0] - 1], gk[1], gk[2], chunk[0]["pis"], gk[3], chunk)
             replayed += len(chunk)
+            if m.kind == "under":
+                m = lost(m.msg + " although every value agrees")   # scripted quantities left over, nothing differs: no verdict
+            if m.kind == "lost":
+                continue
             if m:
-                culprit = next(((t, mm) for t in chunk for mm in [one(t)] if mm), (chunk[0], m))
+                culprit = next(((t, mm.msg) for t in chunk for mm in [one(t)] if mm and mm.kind != "lost"), (chunk[0], m.msg))
                 nsw = len(chunk[0]["sweeps"])
                 key = "run:labels-changed" if "cluster labels changed" in culprit[1] else "replay:sweep" if nsw == 1 else "replay:multi-sweep"
                 ck.violation(key, f"{nsw} sweep(s) of one RWMRunner.run() call differ from Kernel.tla: {culprit[1]}",
-                             {"transitions": chunk, "case": cases[gk[0] - 1], "joint_message": m})
-            elif len(chunk[0]["sweeps"]) == 1 and (i // 3) % (2 if any(kd != "hard" for kd in gk[1]) else 4) == 0:
+                             {"transitions": chunk, "case": cases[gk[0] - 1], "joint_message": m.msg})
+            elif len(chunk[0]["sweeps"]) == 1 and (i // 3) % (3 if any(kd != "hard" for kd in gk[1]) else 6) == 0:
                 # the same behaviours through the public entry point (boundary arguments travel through parallel_mcmc)
                 m = rep.sweep(cases[gk[0] - 1], gk[1], gk[2], chunk[0]["pis"], gk[3], chunk, entry=True)
                 entry_n += len(chunk)
                 if any(kd != "hard" for kd in gk[1]) and any(raw_of(t, t) != t["fol"] for t in chunk):
                     entry_folded += 1
-                if m:
+                if m.kind in ("lost", "under"):
+                    if m.kind == "under":
+                        lost(m.msg)
+                elif m:
                     ck.violation("entry:parallel_mcmc:rwm", f"one sweep through tempest.mcmc.parallel_mcmc(sample='rwm', periodic={[j for j, kd in enumerate(gk[1]) if kd == 'periodic']}, "
                                  f"reflective={[j for j, kd in enumerate(gk[1]) if kd == 'reflective']}) differs from Kernel.tla although RWMRunner.run() constructed directly "
-                                 f"reproduces it: {m}", {"transitions": chunk, "case": cases[gk[0] - 1]})
+                                 f"reproduces it: {m.msg}", {"transitions": chunk, "case": cases[gk[0] - 1]})
         Mg = cases[gk[0] - 1]["M"]
         for t in L:
             for sp in t["sweeps"]:
@@ -1169,12 +1321,12 @@ def _main(ck, pools):
         conf = bool(quant and min(quant["z_vs_uniform_target"][0], quant["z_vs_uniform_target"][-1]) < -5 and max(abs(x) for x in quant["z_vs_spec_prediction"]) < 4.5)
         ck.violation("hardwall:redraw-until-inside",
                      "RWMRunner._propose redraws the increment until the proposal is inside the cube (every Impl_RedrawUntilInside behaviour of Kernel.tla "
-                     f"reproduced, {len(probe_i)} out-of-cube=rejection behaviours all refused); for that rule TLC refutes detailed balance at hard walls: "
+                     f"reproduced, {len(res_i)} out-of-cube=rejection behaviours all refused); for that rule TLC refutes detailed balance at hard walls: "
                      f"{cex}. Stationary law on the flat M=8 lattice: {quant and quant['stationary_float']} instead of 0.125 each"
                      + ("; confirmed by simulating the real runner" if conf else ""),
                      {"tlc_counterexample": cex, "quantification": quant, "continuous_simulation_rwm_hard": sims.get("rwm:hard"), "simulation_confirms": conf})
     ex_a = dict(rule_followed_by_code=follows, multi_sweep_behaviours_replayed=multi_n, multi_sweep_walkers_in_other_modes_region=crossers, lattice_transitions_through_parallel_mcmc=entry_n, entry_sweeps_with_folded_proposal=entry_folded, lattice_rows_cross_checked=rows_i + rows_c, accept_masks_seen=sorted(str(m) for m in rep.masks if m),
-                probes={"intended_out_reject": len(probe_i), "impl_redraw": len(probe_c)}, run_calls=rep.calls, hardwall_quantification=quant)
+                probes={"intended_out_reject": len(res_i), "impl_redraw": len(res_c)}, run_calls=rep.calls, sweeps_checked_through_hook=rep.hooked, hardwall_quantification=quant)
 
     # ================================================================= (b) tpCN identity
     dbg(ck, "part (a) done")
@@ -1217,7 +1369,12 @@ def _main(ck, pools):
                          "reproduced); the proposal given s is renormalised by P(inside | u, s), which the Student-t correction ignores - the mechanism TLC refutes on the "
                          f"lattice (Kernel.tla). Simulation of the real runner, flat target, hard walls: edge bins {s_h['edge_z']} sigma below the target",
                          {"simulation_tpcn_hard": s_h, "impl_redraw_behaviours_reproduced": cnt["redraws"]})
+    if LOST and not ck.violations:
+        for w in LOST[:5]:
+            print(f"INCONCLUSIVE property=C03 binding lost: {w}", flush=True)
+        raise RuntimeError(f"binding lost: {len(LOST)} replay(s) could not be served by the scripted random source; first: {LOST[0]}")
     ck.assumptions += [
+        "the scripted random source serves randn/standard_normal/normal, rand/random/random_sample/uniform/standard_exponential/exponential and gamma/standard_gamma from the same scripted quantities; floats are compared at 1e-9; any other use of numpy.random by the kernel is reported as INCONCLUSIVE (exit 2), never as a violation",
         "numpy.random.gamma / randn sample the laws their parameters name (trusted, not checked)",
         "step-size adaptation (diminishing adaptation) is not covered: sigma is pinned in every replay",
         "no statistical test on continuous targets is used as an oracle; the direct simulations only confirm spec-derived predictions (hard-wall and folded-coordinate findings)",
@@ -1233,7 +1390,7 @@ def _main(ck, pools):
     ck.finish(dict(ex_a, **{
         "states": states,
         "transitions": trans_n,
-        "traces_validated_against_impl": replayed + len(probe_i) + len(probe_c) + cnt["propose"] + cnt["factor_pairs"] + cnt["entry"]["walkers"],
+        "traces_validated_against_impl": replayed + len(res_i) + len(res_c) + cnt["propose"] + cnt["factor_pairs"] + cnt["entry"]["walkers"],
         "evaluations": rep.calls + cnt["propose"] + cnt["factor_pairs"] + cnt["entry"]["sweeps"],
         "distinct_nontrivial": len(nontrivial) + cnt["redraws"] + cnt["folded"],
         "rule": "lattice behaviours (u, increment sequence, accept-uniform class) enumerated by TLC; non-trivial = a redraw, an out-of-cube or folded proposal, or an "
@@ -1242,6 +1399,7 @@ def _main(ck, pools):
         "lattice_transitions_replayed": replayed,
         "tpcn": cnt,
         "tpcn_wrong_variants_refuted": refuted,
+        "binding_lost": len(LOST),
         "tpcn_folded_pairs": {"examined": npairs, "refuted": nbad},
         "simulations": sims,
         "spec_runs": spec_runs,
